@@ -45,7 +45,9 @@ RULE = ('Pool per worker: the repository sample of every self-describing '
         ' file that >=2 registered readers accept (humidity/'
         'vertical_diffusivity/one3d family, bpch family, netCDF/IOAPI '
         'family).  The pool also holds the ICARTT sample under three other '
-        'delimiters (comma, comma+blank, tab: first line "36,1001" etc.).  One '
+        'delimiters (comma, comma+blank, tab: first line "36,1001" etc.), with '
+        'a fixed-width (2I10) first line, and the bpch sample with other '
+        'spellings of its file-type label.  One '
         'step in forty is "many:<file>": the file is opened and closed 80 '
         'times with only 64 free descriptors (soft RLIMIT_NOFILE lowered '
         'for the step); every open must have the reference outcome and the '
@@ -81,13 +83,27 @@ REWRITE_KINDS = ['uamiv', 'humidity', 'vertical_diffusivity', 'ffi1001',
 # comma, comma+blank, blank): (kind, sample, format, first line)
 VARIANTS = [('ffi1001c', 'ffi1001', 'ffi1001', b','),
             ('ffi1001cb', 'ffi1001', 'ffi1001', b', '),
-            ('ffi1001t', 'ffi1001', 'ffi1001', b'\t')]
+            ('ffi1001t', 'ffi1001', 'ffi1001', b'\t'),
+            # first line in Fortran 2I10 form, the rest as in the sample
+            ('ffi1001w', 'ffi1001', 'ffi1001', b'2I10'),
+            # other spellings of the 40-character file-type label, which no
+            # reader interprets
+            ('bpch4d', 'bpch', 'bpch', b'CTM bin 4D'),
+            ('bpchlc', 'bpch', 'bpch', b'ctm bin 02')]
 
 
 def icartt_delimited(blob, sep):
     """the blank-delimited ICARTT sample re-written with another delimiter
     on every list line (first line, volume line, dates, scale factors,
-    missing codes, column names, data records)"""
+    missing codes, column names, data records); other variants: see
+    VARIANTS"""
+    if sep.startswith(b'CTM') or sep.startswith(b'ctm'):
+        # bpch: 4-byte marker, 40-character label
+        return blob[:4] + sep.ljust(40) + blob[44:]
+    if sep == b'2I10':
+        first, rest = blob.split(b'\n', 1)
+        a, b = first.split()
+        return b'%10d%10d' % (int(a), int(b)) + b'\n' + rest
     lines = blob.split(b'\n')
     nhead = int(lines[0].split()[0])
     nv = int(lines[9].split()[0])
